@@ -56,4 +56,56 @@ def div (a b : Jet α) : Jet α := mul a (inv b)
 /-- the symmetric Hessian of a jet is symmetric -/
 def IsSymm (a : Jet α) : Prop := ∀ i j, a.h i j = a.h j i
 
+/-! ### rational expressions: the outer map of a composition `geo2 ∘ geo1`
+
+A piece of a spline is a polynomial, a piece of a NURBS a quotient of polynomials in the
+coordinates `y₀, y₁, …`; `RExpr` is that class of functions, closed under `+ · /`. -/
+
+inductive RExpr (α : Type) where
+  | const : α → RExpr α
+  | var : Nat → RExpr α
+  | add : RExpr α → RExpr α → RExpr α
+  | mul : RExpr α → RExpr α → RExpr α
+  | div : RExpr α → RExpr α → RExpr α
+
+/-- value at the point `y` -/
+def RExpr.eval (y : Nat → α) : RExpr α → α
+  | .const c => c
+  | .var k => y k
+  | .add p q => p.eval y + q.eval y
+  | .mul p q => p.eval y * q.eval y
+  | .div p q => p.eval y / q.eval y
+
+/-- formal partial derivative `∂/∂y_e` at the point `y` -/
+def RExpr.deriv (y : Nat → α) (e : Nat) : RExpr α → α
+  | .const _ => 0
+  | .var k => if k = e then 1 else 0
+  | .add p q => p.deriv y e + q.deriv y e
+  | .mul p q => p.deriv y e * q.eval y + p.eval y * q.deriv y e
+  | .div p q => (p.deriv y e * q.eval y - p.eval y * q.deriv y e) / (q.eval y * q.eval y)
+
+/-- the jet of the composition `p ∘ (u₀, u₁, …)`: evaluate `p` in the jet algebra -/
+def RExpr.jet (u : Nat → Jet α) : RExpr α → Jet α
+  | .const c => Jet.const c
+  | .var k => u k
+  | .add p q => Jet.add (p.jet u) (q.jet u)
+  | .mul p q => Jet.mul (p.jet u) (q.jet u)
+  | .div p q => Jet.div (p.jet u) (q.jet u)
+
+/-- no denominator vanishes at `y` -/
+def RExpr.Defined (y : Nat → α) : RExpr α → Prop
+  | .const _ => True
+  | .var _ => True
+  | .add p q => p.Defined y ∧ q.Defined y
+  | .mul p q => p.Defined y ∧ q.Defined y
+  | .div p q => p.Defined y ∧ q.Defined y ∧ q.eval y ≠ 0
+
+/-- only the variables `y_e`, `e < n`, occur -/
+def RExpr.VarsBelow (n : Nat) : RExpr α → Prop
+  | .const _ => True
+  | .var k => k < n
+  | .add p q => p.VarsBelow n ∧ q.VarsBelow n
+  | .mul p q => p.VarsBelow n ∧ q.VarsBelow n
+  | .div p q => p.VarsBelow n ∧ q.VarsBelow n
+
 end Pyiga.Jet
